@@ -29,6 +29,8 @@ type Program struct {
 	allFuncs map[*ssa.Function]bool
 	constErr map[*ssa.Global]bool
 	Known    []KnownFinding
+	locals   localsRegistry
+	renames  map[string]bool
 }
 
 func (p *Program) strLit(s string) string {
